@@ -55,6 +55,34 @@ type appGen struct {
 	a     *app.App
 	names []string // node names in rank order, root first, _catch last
 	sizes map[string]uint32
+	flags []uint32 // with a large flag count: the few client flags this application uses
+}
+
+// clientFlags: every client flag of a small configuration; of a large one a handful
+// around the byte boundaries of the index (so that setting and testing the same flag
+// stays likely).
+func (g *appGen) clientFlags() []uint32 {
+	n := int(g.a.Cfg.FlagCount)
+	if g.flags != nil || n == 0 {
+		return g.flags
+	}
+	if n <= 24 {
+		for i := 0; i < n; i++ {
+			g.flags = append(g.flags, uint32(8+i))
+		}
+		return g.flags
+	}
+	hot := []uint32{8, 9, 15, 16, 127, 128, 255, 256, 257, 262, 263, 264, 300, 511, 512, 518, 519, uint32(n + 6), uint32(n + 7)}
+	var valid []uint32
+	for _, f := range hot {
+		if int(f) <= n+7 {
+			valid = append(valid, f)
+		}
+	}
+	for len(g.flags) < 4 {
+		g.flags = append(g.flags, valid[g.draw(len(valid), "hotflag")])
+	}
+	return g.flags
 }
 
 // rapid's integer generators are deliberately biased towards small values and range
@@ -153,6 +181,9 @@ func (g *appGen) genFlagList(label string) []uint32 {
 	var out []uint32
 	for i := 0; i < n; i++ {
 		f := uint32(rapid.IntRange(lo, max).Draw(g.t, label))
+		if cf := g.clientFlags(); max > 31 && len(cf) > 0 && (f >= 8 || !g.chance(50, label+"reserved")) {
+			f = cf[g.draw(len(cf), label+"hot")]
+		}
 		if f == 7 && !g.o.Langs {
 			// LANG together with non-language content: unspecified-4; keep out unless languages are on
 			continue
@@ -231,7 +262,8 @@ func (g *appGen) clientFlag(label string) (uint32, bool) {
 	if g.a.Cfg.FlagCount == 0 {
 		return 0, false
 	}
-	return uint32(8 + g.draw(int(g.a.Cfg.FlagCount), label)), true
+	cf := g.clientFlags()
+	return cf[g.draw(len(cf), label)], true
 }
 
 // genSection generates the instructions before a HALT and reports the symbols mapped.
@@ -426,6 +458,15 @@ func (g *appGen) genPost(node string, loaded map[string]bool, hasSink, browse bo
 			exclude[k] = true
 		}
 	}()
+	// input handling that refreshes (and thereby maps) or maps a symbol before comparing
+	// the input: the mapping must not outlive the move of a matching INCMP
+	if ls := sortedKeys(loaded); len(ls) > 0 && g.chance(12, "postprelude") {
+		op := uint16(refdec.RELOAD)
+		if g.chance(30, "postpreludemap") {
+			op = refdec.MAP
+		}
+		code = append(code, app.Instr{Op: op, Sym: refdec.BS(pickS(t, ls, "postpreludesym"))})
+	}
 	if hasSink && browse {
 		code = append(code, app.Instr{Op: refdec.INCMP, Sym: ">", Sel: "11"}, app.Instr{Op: refdec.INCMP, Sym: "<", Sel: "22"})
 	}
@@ -601,7 +642,11 @@ func GenApp(t *rapid.T, o GenOpts) *app.App {
 	}
 	// config
 	if o.Flags {
-		a.Cfg.FlagCount = uint32(rapid.SampledFrom([]int{0, 1, 2, 3, 8, 9, 16, 24}).Draw(t, "flagcount"))
+		a.Cfg.FlagCount = uint32([]int{0, 1, 2, 3, 8, 9, 16, 24}[uniformN(t, 8, "flagcount")])
+		if chancePct(t, 12, "manyflags") {
+			// flag indices beyond one byte's worth of bits, and beyond 255
+			a.Cfg.FlagCount = uint32([]int{120, 248, 249, 256, 300, 600, 1000}[uniformN(t, 7, "flagcountbig")])
+		}
 	}
 	if o.Langs && g.chance(30, "cfglang") {
 		a.Cfg.Language = pickS(t, []string{"nor", "eng", "swa"}, "cfglangv")
@@ -769,7 +814,21 @@ func inputAccepted(in string) bool {
 	return inputRegex.MatchString(in)
 }
 
-var junkInputs = []string{"x", "zz", "99", "+1", "1 2", "0000", "hello world", "7*", "11", "22", "0x", "1\x00", "9\xff"}
+var junkInputs = []string{"x", "zz", "99", "+1", "1 2", "0000", "hello world", "7*", "11", "22", "0x", "1\x00", "9\xff",
+	"50%", "a%20b", "5%d", "1%s", "9%!", "1%v%v", "a{{.x}}", "0{{", "1\t2", "a\"b", "a'b", "a\\n", "1$", "2^", "0|1", "a(b", "1[0", "x.y", "0?"}
+
+// genJunkInput: an acceptable input (leading letter or digit, no line break) over an
+// alphabet of characters that mean something to formatters, templates and patterns.
+var genJunkInput = rapid.Custom(func(t *rapid.T) string {
+	const lead = "0123456789abzAZ"
+	const rest = "%{}.'\"\\ *+?$^[]()|-_:;,/<>=&#@!~019ax\t"
+	b := []byte{lead[uniformN(t, len(lead), "lead")]}
+	n := 1 + uniformN(t, 6, "junklen")
+	for i := 0; i < n; i++ {
+		b = append(b, rest[uniformN(t, len(rest), "junkchar")])
+	}
+	return string(b)
+})
 var refusedInputs = []string{"!x", " 1", "\n", "+", "+!", "\x001", "\xff\xfe", "-1", "#", "_", ".", "", ""}
 
 type HistOpts struct {
@@ -798,6 +857,9 @@ func GenHistory(t *rapid.T, a *app.App, o HistOpts) []string {
 		case k < 15:
 			return ""
 		case k < 18 && o.Junk:
+			if chancePct(t, 30, "genjunk") {
+				return genJunkInput.Draw(t, "genjunk")
+			}
 			return rapid.SampledFrom(junkInputs).Draw(t, "junk")
 		case k < 19 && o.Refused:
 			s := rapid.SampledFrom(refusedInputs).Draw(t, "refused")
